@@ -1,7 +1,7 @@
 (* Final forms of the simulator theorems: statements about every end-of-period record [e] of every run of every
    well-formed network ([good]: decidable, see Sim/Wfb.v), for every horizon and every non-negative demand input. *)
 From SV Require Import Sim.Model Sim.Obs Sim.StateLemmas Sim.Inv_base Sim.Inv_book Sim.Inv_pipe Sim.Inv_node Sim.Inv_rm
-  Sim.Inv_init Sim.Inv_run Sim.Inv_bound Sim.Wfb Sim.Delay.
+  Sim.Inv_init Sim.Inv_run Sim.Inv_bound Sim.Wfb Sim.Delay Sim.Policy_thms Sim.PerPeriod.
 
 Definition good (NW : net) : Prop := inert NW /\ netb NW = true.
 
@@ -102,4 +102,49 @@ Proof. intros H Hp. pose proof (pc_ord NW e (a_pc NW e (rec_all e H)) n p Hp) as
 Theorem order_arrives t n p : In p (preds (C n)) -> (t + olt (C n) < length inputs)%nat ->
   gq (nth (t + olt (C n)) (run NW inputs) empty_st) (fIO, p, Nd n) == gq (nth t (run NW inputs) empty_st) (fOQ, n, Nd p).
 Proof. intros Hp Ht. apply (order_delay NW good_wf good_wg good_vo good_wo p n Hp inputs t Ht). Qed.
+(* ---- C01, period by period: consecutive records a (period t) and e (period t+1) ---- *)
+Lemma rec_in t : (t < length inputs)%nat -> In (nth t (run NW inputs) empty_st) (run NW inputs).
+Proof. intros Ht. apply nth_In. unfold run. rewrite run_length. exact Ht. Qed.
+
+Section PP.
+Variable t : nat.
+Hypothesis Ht : (S t < length inputs)%nat.
+Let a := nth t (run NW inputs) empty_st.
+Let e := nth (S t) (run NW inputs) empty_st.
+Lemma a_in : In a (run NW inputs).  Proof. apply rec_in. lia. Qed.
+Lemma e_in : In e (run NW inputs).  Proof. apply rec_in. exact Ht. Qed.
+
+(* orders of a customer: this period's inbound order is shipped, or added to the backorders / held items *)
+Theorem per_period_order_conservation m x : In x (customers (C m)) ->
+  gq e (fBO, m, x) + gq e (fODI, m, x) + gq e (fOS, m, x) == gq a (fBO, m, x) + gq a (fODI, m, x) + gq e (fIO, m, x).
+Proof. intros Hx. pose proof (cus_in_nodes NW good_wo m x Hx) as Hm.
+  destruct (counters_advance NW inputs good_wf good_vo t Ht m Hm) as (A1 & A2 & _ & _). fold a e in A1, A2.
+  pose proof (order_conservation e m x e_in Hx) as E1. pose proof (order_conservation a m x a_in Hx) as E2.
+  rewrite (A1 x Hx), (A2 x Hx) in E1. lra. Qed.
+
+(* inventory level: previous level + finished goods produced this period - orders received this period *)
+Theorem per_period_inventory m : In m (nodes NW) ->
+  gq e (fIL, m, Ext) == gq a (fIL, m, Ext) + (gq e (fCP, m, Ext) - gq a (fCP, m, Ext)) - qsumf (fun x => gq e (fIO, m, x)) (customers (C m)).
+Proof. intros Hm. destruct (counters_advance NW inputs good_wf good_vo t Ht m Hm) as (_ & _ & _ & A4). fold a e in A4.
+  pose proof (inventory_balance e m e_in) as E1. pose proof (inventory_balance a m a_in) as E2. lra. Qed.
+
+(* raw material: previous stock + receipts of this period - what production consumed this period *)
+Theorem per_period_raw_material m q : In q (suppliers (C m)) ->
+  gq e (fRM, m, q) == gq a (fRM, m, q) + gq e (fIS, m, q) - (gq e (fCP, m, Ext) - gq a (fCP, m, Ext)).
+Proof. intros Hq. pose proof (sup_in_nodes NW good_wo m q Hq) as Hm.
+  destruct (counters_advance NW inputs good_wf good_vo t Ht m Hm) as (_ & _ & A3 & _). fold a e in A3.
+  destruct (raw_material_balance e m q e_in Hq) as [E1 _]. destruct (raw_material_balance a m q a_in Hq) as [E2 _]. rewrite (A3 q Hq) in E1. lra. Qed.
+
+(* an edge p -> n: what p shipped to n this period = what n received from p this period + the change of n's inbound
+   pipeline content + the change of the items held at n's door *)
+Theorem per_period_edge n p : In p (preds (C n)) ->
+  gq e (fOS, p, Nd n) == gq e (fIS, n, Nd p) + (qsum (gl e (fSP, n, Nd p)) - qsum (gl a (fSP, n, Nd p))) + (gq e (fIDI, n, Nd p) - gq a (fIDI, n, Nd p)).
+Proof. intros Hp.
+  assert (Hs : In (Nd p) (suppliers (C n))) by (apply in_sup_nd; exact Hp).
+  assert (Hc : In (Nd n) (customers (C p))) by (apply in_cus_nd; apply (wg_sym NW good_wg); exact Hp).
+  destruct (counters_advance NW inputs good_wf good_vo t Ht n (sup_in_nodes NW good_wo n _ Hs)) as (_ & _ & A3 & _). fold a e in A3.
+  destruct (counters_advance NW inputs good_wf good_vo t Ht p (cus_in_nodes NW good_wo p _ Hc)) as (_ & A2 & _ & _). fold a e in A2.
+  pose proof (edge_conservation e n p e_in Hp) as E1. pose proof (edge_conservation a n p a_in Hp) as E2.
+  rewrite (A3 _ Hs), (A2 _ Hc) in E1. lra. Qed.
+End PP.
 End Main.
